@@ -14,7 +14,7 @@ ID = "C19"
 LEVEL = "model_checking"
 RULE = ("explicit-state breadth-first search from the empty sandbox over histories of commands: generate(doc in {A, B disjoint names, "
         "C hostile schema/operation/tag names, D hostile title}, meta in {none, poetry}, overwrite in {no, yes}, location in "
-        "{default-from-title in cwd, --output-path}) and user edits (add a file at the project root, at the package root, modify a "
+        "{default-from-title in cwd, --output-path}) and user edits (make an empty directory or one holding only dot entries where --output-path points, an empty one at the default location, add a file at the project root, at the package root, modify a "
         "generated file), also with generate_all_tags and with post hooks that leave a trace, through the real typer CLI; states = full content of the sandbox + flavours generated per directory, "
         "deduplicated on a canonical hash; every transition audited with sys.addaudithook; quick: depth 4; thorough: depth 4 over the full command set (5 documents, both flavours, both locations) and depth 5 over a 15-command core set; a generation that fails while writing (un-encodable text) must keep the user's files; custom templates taken from a user directory outside the output")
 FLOOR = 0.3
@@ -79,7 +79,7 @@ for _i, (_p, _item) in enumerate(DOCS["F"]["paths"].items()):
     _item["get"]["tags"] = ["store", "../../../escaped_rel", "/tmp/specmc_c19_escaped_abs/x", "..", "a/b"][: 3 + 2 * _i]
 DOCS["N"] = mk("Same Title", ["Alpha", "Shared"], ["opA", "opShared"], tag="store")
 DOCS["N"]["components"]["schemas"]["Alpha"]["description"] = "caf\u00e9 \u2603 non-ASCII"
-USER_FILES = ("USER.txt", "user_mod.py")
+USER_FILES = ("USER.txt", "user_mod.py", ".editorconfig")
 HOOK_FILES = ("HOOK_RAN.txt", "HOOK_STAMP")       # what the configured post hooks leave behind: not part of the generated tree
 
 
@@ -110,6 +110,9 @@ def commands(tier):
     # custom templates kept in a directory of the user's, outside the output directory
     cmds.append(["gen", "A", "none", True, "default", "templates"])
     cmds += [["user", "root"], ["user", "pkg"], ["user", "modify"]]
+    # directories the user made before any generation: an empty one / one that holds only dot entries at the --output-path location,
+    # an empty one where the default (title-derived) location of the metadata-free flavour will be
+    cmds += [["user", "mkdir-out"], ["user", "dotfiles-out"], ["user", "mkdir-default"]]
     return cmds
 
 
@@ -234,6 +237,17 @@ def _invoke(sb, doc, meta, ow, loc, cfgname="plain"):
 
 def _user_edit(sb, what):
     work = Path(sb) / "work"
+    if what == "mkdir-out":
+        (work / "out").mkdir(parents=True, exist_ok=True)
+        return
+    if what == "dotfiles-out":
+        (work / "out" / ".hg").mkdir(parents=True, exist_ok=True)
+        (work / "out" / ".hg" / "USER.txt").write_text("user\n")
+        (work / "out" / ".editorconfig").write_text("root = true\n")
+        return
+    if what == "mkdir-default":
+        (work / "same_title_client").mkdir(parents=True, exist_ok=True)
+        return
     for proj in sorted(work.iterdir()):
         if not proj.is_dir():
             continue
